@@ -8,7 +8,7 @@ from vlib.props import c02
 from vlib.runner import Case
 
 REPS = {"num": ["0", "-0", "-1", "0.5", "3", S.INF, "(%s-%s)" % (S.INF, S.INF), "0.1+0.2", "0.3", "9" * 300],
-        "str": ['""', '"a"', '"1"', '"é"'], "bool": ["TRUE", "FALSE"], "null": ["NULL"],
+        "str": ['""', '"a"', '"1"', '"é"', '"' + "é" * 20 + '"'], "bool": ["TRUE", "FALSE"], "null": ["NULL"],
         "list": ["[]", "[[1], 2]", "l"]}
 OPS = ["+", "-", "*", "/", "MOD", "==", "!=", "<", "<=", ">", ">=", "AND", "OR"]
 
@@ -20,6 +20,12 @@ CORPUS = [
     "l <- [1, 2]\nDISPLAY(l + l)\nDISPLAY(l == l)\nDISPLAY([1] == [1])\nDISPLAY(0.1 + 0.2 == 0.3)\n",
     "DISPLAY(1 < \"2\")\n", "DISPLAY(TRUE + 1)\n", "DISPLAY(NULL == NULL)\nDISPLAY(NULL == 0)\nDISPLAY(\"1\" == 1)\n",
     "DISPLAY(5.5 MOD 2)\nDISPLAY(-5.5 MOD 2)\nDISPLAY(7 MOD 0.1)\n",
+    # a bare variable as the left operand of an operator whose right operand assigns that variable: left is read first
+    "x <- 1\nDISPLAY(x - (x <- 5))\nDISPLAY(x)\nDISPLAY(x + (x <- 7) * x)\nDISPLAY(x)\n",
+    "y <- 2\nDISPLAY(y == (y <- 3))\nDISPLAY(y < (y <- 1))\nDISPLAY(y / (y <- 4))\nDISPLAY(y MOD (y <- 3))\nDISPLAY(y)\n",
+    "z <- 0\nDISPLAY(z OR (z <- 5))\nDISPLAY(z AND (z <- 0))\nDISPLAY(z)\nDISPLAY(\"s\" + z + (z <- -0))\nDISPLAY(\"z=\" + -0)\nDISPLAY(-0)\n",
+    "DISPLAY(q - (q <- 5))\n",
+    "l <- [7]\nDISPLAY(l + (l <- [8]))\nDISPLAY(l)\nw <- 0\nw <- 0 * -1\nDISPLAY(w)\nw <- 0\nDISPLAY(w)\n",
 ]
 
 
